@@ -146,5 +146,16 @@ void sim_op_end(int k) {
     out(buf);
     g_evlen = 0; g_ev[0] = 0;
 }
+long sim_wrapper_live(void) {
+    long wl = 0;
+    g_inhook = 1;
+    for (int i = 0; i < NBLK; i++) {
+        Blk *b = &g_tab[i];
+        if (b->p == 0 || b->p == (const void *)1) continue;
+        if (b->phase == SIM_PH_WRAPPER && !b->isobj) wl++;
+    }
+    g_inhook = 0;
+    return wl;
+}
 void sim_final(void) { out("FINAL\n"); }
 }
